@@ -191,6 +191,9 @@ pub fn emit(text: &str, dir: &Path) -> Result<Vec<LwDiag>, Vec<LwDiag>> {
     })
 }
 
+/// recent panics of all threads (thread name, message) — analyzer threads of the IDE cache die silently
+pub static PANIC_HISTORY: std::sync::Mutex<Vec<(String, String)>> = std::sync::Mutex::new(Vec::new());
+
 pub static LAST_PANIC_GLOBAL: std::sync::Mutex<Option<String>> = std::sync::Mutex::new(None);
 
 thread_local! {
@@ -214,6 +217,13 @@ pub fn quiet_panics() {
             let loc = info.location().map_or(String::new(), |l| format!(" at {}:{}", l.file(), l.line()));
             if let Ok(mut g) = LAST_PANIC_GLOBAL.lock() {
                 *g = Some(format!("{msg}{loc}"));
+            }
+            if let Ok(mut h) = PANIC_HISTORY.lock() {
+                let thread = std::thread::current().name().unwrap_or("unnamed").to_string();
+                h.push((thread, format!("{msg}{loc}")));
+                if h.len() > 64 {
+                    h.remove(0);
+                }
             }
             LAST_PANIC.with(|p| *p.borrow_mut() = Some(format!("{msg}{loc}")));
         }));
